@@ -400,7 +400,7 @@ def gauge_correspondence(ctx, st, quick):
 
 
 def run(ctx):
-    st = vlib.prepare(ctx, PROP_V)
+    st = vlib.prepare(ctx, PROP_V, need_translators=('tr_deleg',))
     quick = ctx.tier == 'quick'
     ctx.cov['rule'] = ('MPS and MPO of every operator family x symmetry, N = 1..6, generic float data, non-unit factors: random sequences of canonize_/orthogonalize_site_/'
                        'absorb_central_ in both directions (trace of pC and canonical flags vs the Coq gauge machine); integer central blocks absorbed by absorb_central_ vs the Coq '
